@@ -214,6 +214,9 @@ fn run_gix(prefix: &[u8], root: &[u8]) -> Gix {
 }
 
 fn imp(c: &Case) -> String {
+    if f_str(c, 0) == b"sym" {
+        return "e2e".into(); // symlink layouts are outside the model: judged by prop() only
+    }
     let Some(l) = parse_layout(c) else { return "badcase".into() };
     let (case_dir, prefix) = materialize(&l);
     let r = std::panic::catch_unwind(std::panic::AssertUnwindSafe(|| run_gix(&prefix, &l.root)));
@@ -632,6 +635,9 @@ fn git_tame(l: &Layout, r: &Reference) -> bool {
 }
 
 fn git(c: &Case) -> String {
+    if f_str(c, 0) == b"sym" {
+        return "-".into();
+    }
     let Some(l) = parse_layout(c) else { return "-".into() };
     let r = reference(&l);
     if !git_tame(&l, &r) {
@@ -661,6 +667,9 @@ fn fnv(c: &Case) -> u64 {
 }
 
 fn prop(c: &Case) -> Verdict {
+    if f_str(c, 0) == b"sym" {
+        return prop_sym(c);
+    }
     let Some(l) = parse_layout(c) else { return Verdict::ok(false, "badcase") };
     let r = reference(&l);
     let (case_dir, prefix) = materialize(&l);
@@ -754,6 +763,188 @@ fn prop(c: &Case) -> Verdict {
             Verdict::fail(quirk(fallback), format!("gix {} git {}", show_list(&listed), show_list(&r.list)))
         }
     }
+}
+
+// ------------------------------------------------------------------------------------------------
+// e2e-only family: layouts WITH symbolic links.   case:  sym <root> (<path> <spec>)*
+//   spec as above plus "l"+target (symbolic link; an absolute target gets PREFIX inserted).
+// Outside the Coq model (transcript is the constant "e2e" on both sides); the verdict compares the
+// directories gix lists (canonicalised by the kernel) with `git count-objects -v` on the same tree.
+
+fn materialize_sym(c: &Case) -> Option<(PathBuf, Vec<u8>, Vec<u8>)> {
+    if c.len() < 2 || (c.len() - 2) % 2 != 0 {
+        return None;
+    }
+    let root = f_str(c, 1).to_vec();
+    plain_path(&root)?;
+    let case_dir = scratch();
+    let prefix_path = case_dir.join("r");
+    std::fs::create_dir_all(&prefix_path).ok()?;
+    let prefix = prefix_path.as_os_str().as_bytes().to_vec();
+    let mut ok = true;
+    let mut i = 2;
+    while i + 1 < c.len() {
+        let Some(p) = plain_path(f_str(c, i)) else {
+            ok = false;
+            break;
+        };
+        let real = real_of(&prefix, &p);
+        let spec = f_str(c, i + 1);
+        let parent_ok = real.parent().map(|d| std::fs::create_dir_all(d).is_ok()).unwrap_or(false);
+        ok &= parent_ok
+            && match spec.first() {
+                Some(b'a') => {
+                    std::fs::create_dir_all(real.join("info")).is_ok()
+                        && std::fs::write(real.join("info").join("alternates"), rewrite(&spec[1..], &prefix)).is_ok()
+                }
+                Some(b'd') => std::fs::create_dir_all(&real).is_ok(),
+                Some(b'f') => std::fs::write(&real, b"").is_ok(),
+                Some(b'l') => {
+                    let t = &spec[1..];
+                    let target = if t.starts_with(b"/") { [&prefix[..], t].concat() } else { t.to_vec() };
+                    std::os::unix::fs::symlink(bpath(&target), &real).is_ok()
+                }
+                _ => false,
+            };
+        i += 2;
+    }
+    if !ok {
+        let _ = std::fs::remove_dir_all(&case_dir);
+        return None;
+    }
+    Some((case_dir, prefix, root))
+}
+
+fn prop_sym(c: &Case) -> Verdict {
+    let Some((case_dir, prefix, root)) = materialize_sym(c) else { return Verdict::ok(false, "badcase") };
+    let gix = std::panic::catch_unwind(std::panic::AssertUnwindSafe(|| run_gix(&prefix, &root)));
+    let mut listed: Vec<Vec<u8>> = Vec::new();
+    if let Ok(Gix::Ok(ps)) = &gix {
+        for p in ps {
+            if p.is_dir() {
+                if let Ok(canon) = std::fs::canonicalize(p) {
+                    listed.push(abstract_of(&prefix, canon.as_os_str().as_bytes()));
+                }
+            }
+        }
+    }
+    let git = real_git(&case_dir, &prefix, &root);
+    let _ = std::fs::remove_dir_all(&case_dir);
+    let Some(git) = git else { return Verdict::ok(false, "sym-no-git") };
+    match gix {
+        Err(_) => Verdict::fail("panic", "resolve() panicked"),
+        Ok(Gix::Err(kind, _)) => Verdict::fail("sym-error", format!("err {kind}; git lists {}", show_list(&git))),
+        Ok(Gix::Ok(_)) => {
+            if listed == git {
+                Verdict::ok(!git.is_empty(), "sym-same-dirs")
+            } else {
+                Verdict::fail("sym-dirs-differ", format!("gix {} git {}", show_list(&listed), show_list(&git)))
+            }
+        }
+    }
+}
+
+/// object directories reached through symbolic links whose target sits at a different depth, relative
+/// entries with "..": git (and the kernel) resolve ".." physically, from where the link points to
+fn sym_case(rng: &mut Rng) -> Case {
+    fn dirs(rng: &mut Rng, top: &str, tag: &str, n: usize) -> Vec<Vec<u8>> {
+        let mut v = vec![top.as_bytes().to_vec()];
+        for i in 0..n {
+            v.push(format!("{tag}{i}").into_bytes());
+        }
+        let _ = rng;
+        v
+    }
+    fn up(base: &Comps, ups: usize, tail: &[&str]) -> Comps {
+        let mut v = base[..base.len() - ups].to_vec();
+        v.extend(tail.iter().map(|t| t.as_bytes().to_vec()));
+        v
+    }
+    let mut c: Vec<(Vec<u8>, Vec<u8>)> = Vec::new();
+    let spec = |k: u8, body: &[u8]| [&[k][..], body].concat();
+    // the main object directory: a link at depth e pointing to the store at depth d
+    let d = 1 + rng.below(4) as usize;
+    let mut e = 1 + rng.below(4) as usize;
+    if e == d {
+        e = if d == 4 { 1 } else { d + 1 };
+    }
+    let mut store = dirs(rng, "S", "s", d);
+    store.push(b"objects".to_vec());
+    let mut link = dirs(rng, "R", "r", e);
+    // the link is the objects directory itself, or a directory above it (.git -> ...)
+    let link_above = rng.chance(1, 3);
+    let root: Comps = if link_above {
+        let mut r = link.clone();
+        r.push(b"objects".to_vec());
+        c.push((render(&link), spec(b'l', &render(&store[..store.len() - 1].to_vec()))));
+        r
+    } else {
+        link.push(b"objects".to_vec());
+        let target = if rng.chance(1, 2) {
+            render(&store)
+        } else {
+            // relative link target
+            let mut t = vec![b"..".to_vec(); link.len() - 1];
+            t.extend(store.iter().cloned());
+            comps_join(&t)
+        };
+        c.push((render(&link), spec(b'l', &target)));
+        link.clone()
+    };
+    let u1 = 1 + rng.below((store.len().min(root.len()) - 1).min(3) as u64) as usize;
+    let entry1 = format!("{}alt/objects", "../".repeat(u1));
+    let p1 = up(&store, u1, &["alt", "objects"]);
+    let decoy1 = up(&root, u1, &["alt", "objects"]);
+    let quoted = |rng: &mut Rng, e: String| -> Vec<u8> {
+        if rng.chance(1, 4) {
+            c_quote(e.as_bytes(), rng, true)
+        } else {
+            e.into_bytes()
+        }
+    };
+    let mut content = quoted(rng, entry1);
+    content.push(b'\n');
+    c.push((render(&store), spec(b'a', &content)));
+    // (below a linked directory one ".." stays inside the link target: no separate lexical place)
+    if rng.chance(4, 5) && !(link_above && u1 == 1) {
+        c.push((render(&decoy1), b"d".to_vec()));
+    }
+    // second level
+    match rng.below(4) {
+        0 => c.push((render(&p1), b"d".to_vec())),
+        1 => {
+            // the alternate is a plain directory with a relative entry of its own
+            let u2 = 1 + rng.below(2) as usize;
+            let p2 = up(&p1, u2, &["alt2", "o"]);
+            let mut content = quoted(rng, format!("{}alt2/o", "../".repeat(u2)));
+            content.push(b'\n');
+            c.push((render(&p1), spec(b'a', &content)));
+            c.push((render(&p2), b"d".to_vec()));
+        }
+        _ => {
+            // the alternate is itself a link to a directory at another depth, with a relative entry
+            let f = 1 + rng.below(4) as usize;
+            let mut t = dirs(rng, "T", "t", f);
+            t.push(b"objects".to_vec());
+            let u2 = 1 + rng.below((t.len() - 1).min(p1.len() - 1).min(3) as u64) as usize;
+            let p2 = up(&t, u2, &["alt2", "o"]);
+            let decoy2 = up(&p1, u2, &["alt2", "o"]);
+            let mut content = quoted(rng, format!("{}alt2/o", "../".repeat(u2)));
+            content.push(b'\n');
+            c.push((render(&p1), spec(b'l', &render(&t))));
+            c.push((render(&t), spec(b'a', &content)));
+            c.push((render(&p2), b"d".to_vec()));
+            if rng.chance(3, 4) && decoy2 != p2 {
+                c.push((render(&decoy2), b"d".to_vec()));
+            }
+        }
+    }
+    let mut case = vec![tag("sym"), render(&root)];
+    for (p, s) in c {
+        case.push(p);
+        case.push(s);
+    }
+    case
 }
 
 // ------------------------------------------------------------------------------------------------
@@ -968,6 +1159,21 @@ fn fixed_case(root: &str, nodes: &[(&str, &str)]) -> Case {
     c
 }
 
+fn fixed_case_sym() -> Case {
+    let mut c = fixed_case(
+        "/repo/.git/objects",
+        &[
+            ("/repo/.git/objects", "l/store/deep/nested/objects"),
+            ("/store/deep/nested/objects", "a../../alt/objects\n"),
+            ("/store/deep/alt/objects", "a../../alt2/objects\n"),
+            ("/store/alt2/objects", "d"),
+            ("/repo/alt/objects", "d"),
+        ],
+    );
+    c[0] = tag("sym");
+    c
+}
+
 fn boundary() -> Vec<Case> {
     let mut out = vec![
         // no alternates at all / empty file / comment only
@@ -1058,8 +1264,20 @@ fn boundary() -> Vec<Case> {
 
 fn gen(rng: &mut Rng, n: usize) -> Vec<Case> {
     let mut out = boundary();
+    {
+        // the coordinator's example: repo/.git/objects -> store/deep/nested/objects, entry ../alt/objects
+        let mut r2 = Rng::new(13);
+        out.push(fixed_case_sym());
+        for _ in 0..12 {
+            out.push(sym_case(&mut r2));
+        }
+    }
     out.truncate(n);
     while out.len() < n {
+        if rng.chance(1, 10) {
+            out.push(sym_case(rng));
+            continue;
+        }
         let k = 1 + rng.below(8) as usize;
         let paths: Vec<Vec<u8>> = (0..=k).map(|i| node_path(rng, i)).collect();
         let mut edges: Vec<Vec<Target>> = vec![Vec::new(); k + 1];
